@@ -38,6 +38,10 @@ func (b *ReorderBuffer[T]) Add(seq uint64, item T) {
 // blocks until the buffer is no longer full.
 func (b *ReorderBuffer[T]) Reserve() uint64 {
 	b.reserved <- struct{}{}
+
+	b.mu.Lock()
+	defer b.mu.Unlock()
+
 	seq := b.nextSeqNum
 	b.nextSeqNum++
 	return seq
